@@ -4,9 +4,10 @@
     nodes, one entry per unordered pair;  [same_nodes G H] = equal node-id sets ("atom-balanced");
     [orders_pos] = every stored bond order > 0;  [geq_sel G' G] = same atoms with equal element, aromatic,
     hcount, charge and equal bond maps;  [amap_id] = atom_map is the node id;  orders are half-units. *)
+From Coq Require Import String.
 From Coq Require Import List NArith ZArith Bool.
-From SK Require Import lib.LGraph lib.C01_GraphLemmas model.C01_Model model.C02_Model model.C01_Opts model.C01_String model.C01_Renum model.C01_Attrs model.C01_CleanWc
-  proof.C01_Proof proof.C01_OptsProof proof.C01_StringProof proof.C01_StringHyd proof.C01_StringPipe proof.C01_StringEH proof.C01_StringRenum proof.C01_StringHydExt proof.C01_RenumCentre proof.C01_RenumWrite proof.C01_StringEHwf proof.C01_AttrsProof proof.C01_StringPipeH proof.C01_CleanWcProof.
+From SK Require Import lib.LGraph lib.C01_GraphLemmas model.C01_Model model.C02_Model model.C01_Opts model.C01_String model.C01_Renum model.C01_Attrs model.C01_CleanWc model.C01_Rsmi model.C01_Nbrs model.C01_Rewrite model.C01_Conv model.C01_G2M
+  proof.C01_Proof proof.C01_OptsProof proof.C01_StringProof proof.C01_StringHyd proof.C01_StringPipe proof.C01_StringEH proof.C01_StringRenum proof.C01_StringHydExt proof.C01_RenumCentre proof.C01_RenumWrite proof.C01_StringEHwf proof.C01_AttrsProof proof.C01_StringPipeH proof.C01_CleanWcProof proof.C01_RsmiProof proof.C01_NbrsProof proof.C01_RewriteProof proof.C01_ConvProof proof.C01_G2MProof.
 Import ListNotations.
 Local Open Scope Z_scope.
 
@@ -446,3 +447,198 @@ Theorem C01_clean_wildcards_refuted :
   snd (clean_wc cw_react cw_prod) = cw_frag1 /\ snd (clean_wc cw_react cw_prod) <> cw_prod.
 Proof. exact clean_wc_lossy. Qed.
 Print Assumptions C01_clean_wildcards_refuted.
+
+(** 30. rsmi.split(">>") and ">>".join: joining the parts of ANY string gives the string back; no part contains ">>"; and a
+        list of parts none of which contains '>' (SMILES never do) is recovered exactly by splitting their join - in particular
+        f"{r}>>{p}" splits into (r, p), which is what ties its_to_rsmi's output format to rsmi_to_graph's input format *)
+Theorem C01_split_join :
+  (forall s : String.string, join_arrow (split_arrow s) = s) /\
+  (forall s : String.string, Forall (fun p => has_arrow p = false) (split_arrow s)) /\
+  (forall l : list String.string, l <> nil -> Forall (fun a => has_gt a = false) l -> split_arrow (join_arrow l) = l) /\
+  (forall a b : String.string, has_gt a = false -> has_gt b = false -> rsmi_parts (String.append a (String.append ">>"%string b)) = Some (a, b)) /\
+  (forall s a b, rsmi_parts s = Some (a, b) -> s = String.append a (String.append ">>"%string b)).
+Proof. exact (conj join_split (conj split_parts_no_arrow (conj split_join (conj rsmi_parts_join rsmi_parts_spec)))). Qed.
+Print Assumptions C01_split_join.
+
+(** 31. failure modes of the string functions, for ANY reader/writer: a reaction string that does not split into exactly two
+        parts gives (None, None) from rsmi_to_graph and an exception from rsmi_to_its; drop_non_aam without
+        use_index_as_atom_map gives (None, None) for every string; rsmi_to_its never returns None; its_to_rsmi never raises
+        without clean_wildcards and never returns None with it *)
+Theorem C01_rsmi_failures : forall (rd_read : bool -> String.string -> option rmol) (rd_write : bool -> wmol -> option String.string),
+  (forall o s, rsmi_parts s = None ->
+     rsmi_to_graph_s rd_read (ro_drop o) (ro_san o) (ro_use o) s = (None, None) /\ rsmi_to_its_str rd_read o s = Raise) /\
+  (forall san core eh s,
+     rsmi_to_graph_s rd_read true san false s = (None, None) /\ rsmi_to_its_str rd_read (RO true san false core eh) s = Raise) /\
+  (forall o s, rsmi_to_its_str rd_read o s <> RNone) /\
+  (forall san eh J, its_to_rsmi_str rd_write san eh false J <> Raise /\
+                    (forall cw, cw = true -> its_to_rsmi_str rd_write san eh cw J <> RNone)).
+Proof.
+  intros rd_read rd_write.
+  exact (conj (rsmi_malformed rd_read) (conj (rsmi_drop_without_use rd_read) (conj (rsmi_to_its_not_none rd_read) (its_to_rsmi_modes rd_write)))).
+Qed.
+Print Assumptions C01_rsmi_failures.
+
+(** 32. the string round trip for the WHOLE reaction string (theorem 27 lifted through split and join): the functions are
+        now rsmi_to_its(s) and its_to_rsmi(its) on one string each.  Premises on RDKit: the four of theorem 27 (for the
+        sanitising reader / writer) and W0 "MolToSmiles never emits '>'".  For every string s = r>>p whose sides RDKit reads as
+        a balanced reaction: its_to_rsmi(rsmi_to_its(s)) = s' splits again into exactly two sides r', p' which read back as the
+        input graphs with every non-centre hydrogen folded.
+        NOT proved: W0 and P1-P4 for the real RDKit (monitored: oracle + kinds rs-split and rs-str). *)
+Theorem C01_rsmi_string_roundtrip : forall (rd_read : bool -> String.string -> option rmol)
+    (rd_write : bool -> wmol -> option String.string) (ok : mgraph -> Prop),
+  (forall w s, rd_write true w = Some s -> has_gt s = false) ->
+  ((forall s m, rd_read true s = Some m -> ok (graph_of m)) /\
+   (forall g g', ok g ->
+      ((forall n, option_map sel5 (label g' n) = option_map sel5 (label g n)) /\ (forall u v, adj g' u v = adj g u v)) -> ok g') /\
+   (forall g pres, ok g -> wf g -> ok (implicit_hydrogen g pres)) /\
+   (forall g w s, ok g -> wf g -> amap_id g -> graph_to_wmol g = Some w -> rd_write true w = Some s ->
+      exists m, rd_read true s = Some m /\ (NoDup (map fst (mapped_nodes m)) /\ simple (mapped_bonds m)) /\ geq_sel (graph_of m) g)) ->
+  forall s r p mr mp, rsmi_parts s = Some (r, p) -> rd_read true r = Some mr -> rd_read true p = Some mp ->
+  (NoDup (map fst (mapped_nodes mr)) /\ simple (mapped_bonds mr)) ->
+  (NoDup (map fst (mapped_nodes mp)) /\ simple (mapped_bonds mp)) ->
+  let G := graph_of mr in let H := graph_of mp in
+  wf G -> wf H -> same_nodes G H -> orders_pos G -> orders_pos H ->
+  forall J s', rsmi_to_its_str rd_read default_ropts s = Ok J -> its_to_rsmi_str rd_write true false false J = Ok s' ->
+  J = its_construct G H /\
+  exists r' p', rsmi_parts s' = Some (r', p') /\
+  exists mr' mp', rd_read true r' = Some mr' /\ rd_read true p' = Some mp' /\
+                  (NoDup (map fst (mapped_nodes mr')) /\ simple (mapped_bonds mr')) /\
+                  (NoDup (map fst (mapped_nodes mp')) /\ simple (mapped_bonds mp')) /\
+                  geq_sel (graph_of mr') (smi_graph G (hlist J)) /\ geq_sel (graph_of mp') (smi_graph H (hlist J)).
+Proof. exact rsmi_string_roundtrip. Qed.
+Print Assumptions C01_rsmi_string_roundtrip.
+
+(** 33. the same for its_to_rsmi(its, explicit_hydrogen=True), relative to R1 and W0: both sides read back as the input graphs *)
+Theorem C01_rsmi_string_roundtrip_explicit : forall (rd_read : bool -> String.string -> option rmol)
+    (rd_write : bool -> wmol -> option String.string),
+  (forall w s, rd_write true w = Some s -> has_gt s = false) ->
+  (forall s0 m0 g w s, rd_read true s0 = Some m0 -> wf g -> geq_sel g (graph_of m0) -> amap_id g ->
+     graph_to_wmol g = Some w -> rd_write true w = Some s ->
+     exists m, rd_read true s = Some m /\ (NoDup (map fst (mapped_nodes m)) /\ simple (mapped_bonds m)) /\ geq_sel (graph_of m) g) ->
+  forall s r p mr mp, rsmi_parts s = Some (r, p) -> rd_read true r = Some mr -> rd_read true p = Some mp ->
+  (NoDup (map fst (mapped_nodes mr)) /\ simple (mapped_bonds mr)) ->
+  (NoDup (map fst (mapped_nodes mp)) /\ simple (mapped_bonds mp)) ->
+  let G := graph_of mr in let H := graph_of mp in
+  wf G -> wf H -> same_nodes G H -> orders_pos G -> orders_pos H ->
+  forall J s', rsmi_to_its_str rd_read default_ropts s = Ok J -> its_to_rsmi_str rd_write true true false J = Ok s' ->
+  J = its_construct G H /\
+  exists r' p', rsmi_parts s' = Some (r', p') /\
+  exists mr' mp', rd_read true r' = Some mr' /\ rd_read true p' = Some mp' /\
+                  (NoDup (map fst (mapped_nodes mr')) /\ simple (mapped_bonds mr')) /\
+                  (NoDup (map fst (mapped_nodes mp')) /\ simple (mapped_bonds mp')) /\
+                  geq_sel (graph_of mr') G /\ geq_sel (graph_of mp') H.
+Proof. exact rsmi_string_roundtrip_explicit. Qed.
+Print Assumptions C01_rsmi_string_roundtrip_explicit.
+
+(** 34. the 'neighbors' attribute is computed inside the model ([fill_nb]: an RDKit molecule enters without the list):
+        every atom keeps its five read-off fields, and its list is sorted by the byte order of the symbols and is a
+        permutation of the symbols of the atoms at the other end of its bonds - unmapped atoms included ([nbr_idx]: j is
+        listed for i iff some bond joins i and j); every node of the molecule graph of rsmi_to_graph (hence, by theorems 2
+        and 7, the fifth entry of both halves of typesGH) carries exactly that list *)
+Theorem C01_neighbors : forall m : rmol0,
+  (forall i a, nth_error (rm_atoms (fill_nb m)) i = Some a ->
+     exists a0, nth_error (rm0_atoms m) i = Some a0 /\
+       ra_el a = r0_el a0 /\ ra_arom a = r0_arom a0 /\ ra_hs a = r0_hs a0 /\ ra_ch a = r0_ch a0 /\ ra_map a = r0_map a0 /\
+       Sorted.Sorted (fun x y => sym_leb x y = true) (ra_nb a) /\
+       Permutation.Permutation (ra_nb a) (flat_map (sym_at m) (nbr_idx (rm0_bonds m) i))) /\
+  (forall i j, In j (nbr_idx (rm0_bonds m) i) <-> exists o, In (i, j, o) (rm0_bonds m) \/ In (j, i, o) (rm0_bonds m)) /\
+  rm_bonds (fill_nb m) = rm0_bonds m /\
+  (forall k g, In (k, g) (mapped_nodes (fill_nb m)) ->
+     exists i a0, nth_error (rm0_atoms m) i = Some a0 /\ k = r0_map a0 /\ k <> 0%N /\
+                  g = GN (r0_el a0) (r0_arom a0) (r0_hs a0) (r0_ch a0) (Some (nb_syms m i)) (Z.of_N k)).
+Proof.
+  intros m. exact (conj (neighbors_spec m) (conj (nbr_idx_in (rm0_bonds m)) (conj (fill_nb_bonds m) (graph_neighbors m)))).
+Qed.
+Print Assumptions C01_neighbors.
+
+(** 35. the order used by sorted() is a total preorder that is antisymmetric on the bytes, so the stored list does not
+        depend on the order in which RDKit enumerates an atom's neighbours: any two enumerations (permutations of each other)
+        give lists with the same symbol bytes *)
+Theorem C01_neighbors_order_independent :
+  (forall a b, lex_leb a b = true \/ lex_leb b a = true) /\
+  (forall a b c, lex_leb a b = true -> lex_leb b c = true -> lex_leb a c = true) /\
+  (forall a b, lex_leb a b = true -> lex_leb b a = true -> a = b) /\
+  (forall l1 l2, Permutation.Permutation l1 l2 -> map sym_bytes (sort_syms l1) = map sym_bytes (sort_syms l2)).
+Proof. exact (conj lex_leb_total (conj lex_leb_trans (conj lex_leb_antisym sort_syms_order_independent))). Qed.
+Print Assumptions C01_neighbors_order_independent.
+
+(** 36. construct and decompose are extensional: they depend only on the label map and the bond map of their arguments
+        ([geq]), i.e. not on the order in which networkx enumerates nodes and edges (nor on which of two equal-sized graphs
+        is copied as the base) *)
+Theorem C01_extensional :
+  (forall G H G' H' : mgraph, wf G -> wf H -> wf G' -> wf H' -> geq G' G -> geq H' H ->
+     geq (its_construct G' H') (its_construct G H)) /\
+  (forall I I' : its, wf I -> wf I' -> geq I' I ->
+     geq (fst (its_decompose I')) (fst (its_decompose I)) /\ geq (snd (its_decompose I')) (snd (its_decompose I))).
+Proof. exact (conj construct_ext decompose_ext). Qed.
+Print Assumptions C01_extensional.
+
+(** 37. "every SMILES re-rooting / fragment reordering": if each side of a reaction is read as the same atoms in another
+        index order ([rewritten s m m']: s renumbers the atom indices injectively, every atom keeps its six read-off fields,
+        the bonds are the same bonds between the renumbered ends in either direction and any order), then the molecule
+        graphs of rsmi_to_graph, the ITS of rsmi_to_its and both graphs of its_decompose are the same label and bond maps.
+        (That RDKit reads a re-rooted SMILES as such a rewriting is RDKit's business: compared on the kinds rw-reroot, rw-frag.) *)
+Theorem C01_rewriting_invariant : forall (sr sp : nat -> nat) (mr mr' mp mp' : rmol),
+  rewritten sr mr mr' -> rewritten sp mp mp' ->
+  (NoDup (map fst (mapped_nodes mr)) /\ simple (mapped_bonds mr)) -> (NoDup (map fst (mapped_nodes mr')) /\ simple (mapped_bonds mr')) ->
+  (NoDup (map fst (mapped_nodes mp)) /\ simple (mapped_bonds mp)) -> (NoDup (map fst (mapped_nodes mp')) /\ simple (mapped_bonds mp')) ->
+  wf (graph_of mr) -> wf (graph_of mp) -> wf (graph_of mr') -> wf (graph_of mp') ->
+  geq (graph_of mr') (graph_of mr) /\ geq (graph_of mp') (graph_of mp) /\
+  let I := its_construct (graph_of mr) (graph_of mp) in
+  let I' := its_construct (graph_of mr') (graph_of mp') in
+  rsmi_to_its_m mr' mp' = Some I' /\ rsmi_to_its_m mr mp = Some I /\
+  geq I' I /\
+  geq (fst (its_decompose I')) (fst (its_decompose I)) /\ geq (snd (its_decompose I')) (snd (its_decompose I)).
+Proof.
+  intros sr sp mr mr' mp mp' Rr Rp Or Or' Op Op' Wr Wp Wr' Wp'.
+  exact (conj (rewritten_graph sr mr mr' Rr Or Or') (conj (rewritten_graph sp mp mp' Rp Op Op')
+          (rewritten_its sr sp mr mr' mp mp' Rr Rp Or Or' Op Op' Wr Wp Wr' Wp'))).
+Qed.
+Print Assumptions C01_rewriting_invariant.
+
+(** 38. "every reversal": for a balanced pair with atom_map = node id, the ITS of (H, G) is the ITS of (G, H) with the halves
+        of typesGH swapped (top-level attributes = the new reactant side), every order pair swapped and standard_order
+        negated; its decomposition is the decomposition of (G, H) with the sides exchanged *)
+Theorem C01_reverse : forall G H : mgraph, wf G -> wf H -> same_nodes G H -> amap_id G -> amap_id H ->
+  (forall n, label (its_construct H G) n = option_map swap_inode (label (its_construct G H) n)) /\
+  (forall u v, adj (its_construct H G) u v = option_map swap_iedge (adj (its_construct G H) u v)) /\
+  geq (fst (its_decompose (its_construct H G))) (snd (its_decompose (its_construct G H))) /\
+  geq (snd (its_decompose (its_construct H G))) (fst (its_decompose (its_construct G H))).
+Proof. exact reverse_its. Qed.
+Print Assumptions C01_reverse.
+
+(** 39. the MolToGraph converter OBJECT (state = _graph): transform never touches the state and returns the same on any
+        state; reading .graph does not change the state; after ANY history of transform / transform_store / .graph calls
+        on one object, .graph returns the graph of the last SUCCESSFUL transform_store and raises iff there was none; and
+        every other step of a history returns what the same call returns on a fresh converter *)
+Theorem C01_converter_state :
+  (forall st st' d u m, fst (cstep st (OpTransform d u m)) = st /\
+                        snd (cstep st (OpTransform d u m)) = snd (cstep st' (OpTransform d u m))) /\
+  (forall st, fst (cstep st OpGraph) = st) /\
+  (forall ops, snd (cstep (cstate_after cinit ops) OpGraph) =
+               match last_store ops None with Some g => CGraph g | None => CErr end) /\
+  (forall ops1 op ops2,
+     nth_error (crun cinit (ops1 ++ op :: ops2)) (length ops1) =
+     Some (match op with
+           | OpGraph => match last_store ops1 None with Some g => CGraph g | None => CErr end
+           | _ => snd (cstep cinit op)
+           end)).
+Proof. exact (conj transform_stateless (conj graph_read_pure (conj conv_graph_spec conv_history_spec))). Qed.
+Print Assumptions C01_converter_state.
+
+(** 40. GraphToMol.graph_to_mol on graphs that LACK attributes: with every attribute present the generic model is the
+        graph_to_mol of theorem 13 for every value of (ignore_bond_order, use_h_count); an absent element / charge / atom map is
+        "*" / 0 / no map (= 0), an absent hcount leaves the hydrogens to RDKit exactly as use_h_count=False does, and an absent
+        bond order is the order 1 written out *)
+Theorem C01_graph_to_mol_absent :
+  (forall ibo uhc (g : mgraph), graph_to_wmol_g ibo uhc (lift_graph g) = graph_to_wmol_o ibo uhc g) /\
+  (forall ibo uhc (g : ggraph) w, graph_to_wmol_g ibo uhc g = Some w ->
+     fst w = map (fun p => watom_g uhc (snd p)) (gnodes g) /\
+     (forall a, watom_g uhc a =
+        WA (match gg_el a with Some e => e | None => EL_STAR end) (match gg_ch a with Some c => c | None => 0 end)
+           (match gg_amap a with Some m => m | None => 0 end)
+           (match gg_hc a with Some h => if uhc then h else -1 | None => -1 end)) /\
+     graph_to_wmol_g ibo uhc g =
+     graph_to_wmol_g ibo uhc (LG (gnodes g) (map (fun e : N * N * option Z => let '(u, v, o) := e in (u, v, Some (dflt 2 o))) (gedges g)))).
+Proof. exact (conj g2m_lift g2m_absent). Qed.
+Print Assumptions C01_graph_to_mol_absent.
